@@ -466,7 +466,7 @@ func (st *State) external(fn *ssa.Function, a []Value) Value {
 
 var vpIntercepted = map[string]bool{"S": true, "N": true, "I8": true, "U8": true, "I16": true, "I32": true, "U32": true,
 	"I64": true, "Bool": true, "Choice": true, "Str": true, "Assume": true, "Assert": true, "Cover": true, "Policy": true,
-	"Unwind": true, "Load": true, "Failures": true, "Covers": true}
+	"Unwind": true, "Fork": true, "Load": true, "Failures": true, "Covers": true}
 
 // vp implements the harness API.
 func (st *State) vp(name string, a []Value) Value {
@@ -490,6 +490,12 @@ func (st *State) vp(name string, a []Value) Value {
 		return mkInt(64, true, uint64(int64(n)))
 	case "I16":
 		return st.NewVar(str(0), 16, true)
+	case "Fork":
+		c := a[0].(Bool)
+		if c.T == nil {
+			return c
+		}
+		return Bool{C: st.decide(c.T)}
 	case "Unwind":
 		st.Unwind = int(a[0].(Int).SVal())
 		return nil
